@@ -26,6 +26,7 @@ type vPerson struct {
 	F     *float64
 	O     *bool
 	D     *time.Time
+	N     *int32 // stored as a 32-bit integer, queried as an int64 symbol
 }
 
 func (e *vPerson) GetId() string         { return e.Id }
@@ -57,6 +58,9 @@ func (vPersonStrategy) PersistEntity(e *vPerson, ctx *PersistContext) {
 	if e.D != nil {
 		ctx.SetTimeP("d", e.D)
 	}
+	if e.N != nil {
+		ctx.SetInt32("n", *e.N)
+	}
 }
 
 type vPersonStore struct {
@@ -83,6 +87,7 @@ func verifNewPersonStore() *vPersonStore {
 	s.AddSymbol("f", ast.NodeTypeFloat64)
 	s.AddSymbol("o", ast.NodeTypeBool)
 	s.AddSymbol("d", ast.NodeTypeDatetime)
+	s.AddSymbol("n", ast.NodeTypeInt64)
 	return s
 }
 
@@ -282,6 +287,10 @@ func verifSymPop(needs string, n int) *vPop {
 		if strings.Contains(needs, "o") {
 			e.O = verifOptBool("o")
 		}
+		if strings.Contains(needs, "n") && verifrt.Choose("n.nil", 2) == 1 {
+			v := verifrt.Int32("n")
+			e.N = &v
+		}
 		if strings.Contains(needs, "d") && verifrt.Choose("d.nil", 2) == 1 {
 			v := verifrt.TimeUTC("d")
 			e.D = &v
@@ -377,6 +386,12 @@ var vSProgs2 = []vSProg{
 	{`f between 1 and 2`, "f", func(p *vPop, e *vPerson) bool { return e.F != nil && verifrt.And(*e.F >= 1, *e.F < 2) }},
 	{`f in [1.5, 2]`, "f", func(p *vPop, e *vPerson) bool { return e.F != nil && verifrt.Or(*e.F == 1.5, *e.F == 2) }},
 	{`f = null`, "f", func(p *vPop, e *vPerson) bool { return e.F == nil }},
+	{`n < 0`, "n", func(p *vPop, e *vPerson) bool { return e.N != nil && *e.N < 0 }},
+	{`n = -1`, "n", func(p *vPop, e *vPerson) bool { return e.N != nil && *e.N == -1 }},
+	{`n >= 5.5`, "n", func(p *vPop, e *vPerson) bool { return e.N != nil && *e.N >= 6 }},
+	{`n in [-2147483648, 2147483647]`, "n", func(p *vPop, e *vPerson) bool {
+		return e.N != nil && verifrt.Or(*e.N == -2147483648, *e.N == 2147483647)
+	}},
 	{`o = true`, "o", func(p *vPop, e *vPerson) bool { return e.O != nil && *e.O }},
 	{`o != true`, "o", func(p *vPop, e *vPerson) bool { return e.O == nil || !*e.O }},
 	{`o != null`, "o", func(p *vPop, e *vPerson) bool { return e.O != nil }},
